@@ -290,6 +290,7 @@ def default_sig(item):
 
 def replay_cases(ver, binp, tlc_out, wd, stage, kind="CASE"):
     """S->I: extract the cases TLC emitted, run them on the implementation, classify mismatches."""
+    t0 = time.time()
     cases = os.path.join(wd, stage + ".cases.ndjson")
     n = extract_cases(tlc_out, cases, kind)
     if n == 0:
@@ -304,13 +305,15 @@ def replay_cases(ver, binp, tlc_out, wd, stage, kind="CASE"):
     ver.cov["evaluations"] += summ["cases"]
     ver.cov["distinct_nontrivial"] += summ["distinct"]
     ver.cov["samples"] += summ["samples"][:3]
-    ver.cov["stages"].append({"stage": "S->I " + stage, "cases_replayed": summ["cases"], "mismatches": summ["mismatches"]})
+    ver.cov["stages"].append({"stage": "S->I " + stage, "cases_replayed": summ["cases"], "mismatches": summ["mismatches"],
+                              "wall_s": round(time.time() - t0, 1)})
     os.remove(cases)
     return summ
 
 
 def validate_traces(ver, binp, family, trace_module, wd, stage="trace", jobs=12, gen_args=None):
     """I->S: have the harness record traces, validate every shard with TLC, classify mismatches."""
+    t0 = time.time()
     tdir = os.path.join(wd, stage)
     summ = run_harness(binp, ["gen", family, ver.tier, str(ver.seed), tdir] + (gen_args or []))
     shards = sorted(os.path.join(tdir, f) for f in os.listdir(tdir) if f.endswith(".ndjson"))
@@ -326,6 +329,6 @@ def validate_traces(ver, binp, family, trace_module, wd, stage="trace", jobs=12,
     ver.cov["distinct_nontrivial"] += summ.get("distinct_inputs", 0)
     ver.cov["samples"] += summ["samples"][:3]
     ver.cov["stages"].append({"stage": "I->S " + stage, "events_validated": n, "mismatches": len(mism),
-                              "distinct_inputs": summ.get("distinct_inputs", 0)})
+                              "distinct_inputs": summ.get("distinct_inputs", 0), "wall_s": round(time.time() - t0, 1)})
     shutil.rmtree(tdir, ignore_errors=True)
     return summ
